@@ -5,7 +5,7 @@
 //! names, all of its subterms inserted and their handles kept, a random subset of 16 rules (binders, commutativity,
 //! rules that make slots redundant, native substitution), <= 3 rounds of apply_rewrites, <= 200 nodes; plus 8 hand-written
 //! union histories.  After every round:
-//! Also 200 (deep: 2000) union histories: 6 terms (some are slot-permuted copies of earlier ones, or two such copies under
+//! Also 100 (deep: 2000) union histories: 6 terms (some are slot-permuted copies of earlier ones, or two such copies under
 //! one node), 8 unions between them, observed after every union.
 //!  `ematch_all` / `multi_ematch` (C05): 12 patterns and 4 multi-patterns; every returned substitution binds every
 //!    pattern variable, the instantiated pattern is found by `lookup` alone (nothing inserted), every multi-pattern
@@ -27,6 +27,7 @@ define_language! {
         Mul(AppliedId, AppliedId) = "mul",
         Sub(AppliedId, AppliedId) = "sub",
         F3(AppliedId, AppliedId, AppliedId) = "f3",
+        F4(AppliedId, AppliedId, AppliedId, AppliedId) = "f4",
         G(AppliedId) = "g",
         Zero() = "zero",
         One() = "one",
@@ -81,9 +82,30 @@ fn lookup_pattern(eg: &EG, pat: &Pattern<KL>, subst: &Subst) -> Result<AppliedId
     }
 }
 fn subterms(re: &RecExpr<KL>, out: &mut Vec<RecExpr<KL>>) { for c in &re.children { subterms(c, out); } out.push(re.clone()); }
-fn snapshot(eg: &EG) -> (usize, usize, Vec<(Id, usize, usize)>) {
+fn snapshot(eg: &EG) -> (usize, usize, usize, Vec<(Id, usize, usize)>) {
     let ids = eg.ids();
-    (eg.total_number_of_nodes(), ids.len(), ids.iter().map(|i| (*i, eg.slots(*i).len(), eg.enodes(*i).len())).collect())
+    (eg.total_number_of_nodes(), ids.len(), eg.progress().number_of_classes, ids.iter().map(|i| (*i, eg.slots(*i).len(), eg.enodes(*i).len())).collect())
+}
+/// all terms obtained from `t` by permuting the children of ONE inner node (at most 4 children), with the permuted sub-term
+fn child_permuted_variants(t: &RecExpr<KL>) -> Vec<(RecExpr<KL>, RecExpr<KL>, RecExpr<KL>)> {
+    fn perms(n: usize) -> Vec<Vec<usize>> { if n == 0 { return vec![vec![]]; } let mut out = Vec::new(); for p in perms(n - 1) { for i in 0..n { let mut q = p.clone(); q.insert(i, n - 1); out.push(q); } } out }
+    let mut out = Vec::new();
+    let k = t.children.len();
+    // binders are left alone: permuting below a binder node would have to move the bound slot too
+    if k >= 2 && k <= 4 && !matches!(t.node, KL::Lam(..) | KL::Let(..)) {
+        for p in perms(k) {
+            if (0..k).all(|i| p[i] == i) { continue; }
+            let v = RecExpr { node: t.node.clone(), children: p.iter().map(|i| t.children[*i].clone()).collect() };
+            out.push((v.clone(), t.clone(), v));
+        }
+    }
+    for (i, c) in t.children.iter().enumerate() {
+        for (whole, sub, subv) in child_permuted_variants(c) {
+            let mut ch = t.children.clone(); ch[i] = whole;
+            out.push((RecExpr { node: t.node.clone(), children: ch }, sub, subv));
+        }
+    }
+    out
 }
 fn rename(t: &str) -> String { let mut s = t.to_string(); for k in (1..=9).rev() { s = s.replace(&format!("${})", k), &format!("$1{})", k)); s = s.replace(&format!("${} ", k), &format!("$1{} ", k)); } s }
 
@@ -162,6 +184,21 @@ fn observe(what: &str, h: &mut Hist, desc: &str) -> Result<(), String> {
             let hm: SlotMap = hd.m.iter().map(|(a, b)| { let nm = format!("{}", b); let nb = if nm.starts_with("$f") || nm.len() != 2 { b } else { Slot::named(&format!("1{}", &nm[1..])) }; (a, nb) }).collect();
             let h2 = AppliedId::new(hd.id, hm);
             if !eg.eq(&x2, &h2) { return Err(format!("C09:add.renaming-equivariant {}: inserting the renamed term {} gives {:?}, expected {:?}", desc, rn, x2, h2)); }
+            // equal through earlier unions of subterms: a sub-term with permuted children that the e-graph already
+            // holds and reports equal to the original sub-term; then the whole variant is represented (congruence)
+            for (whole, sub, subv) in child_permuted_variants(s) {
+                if whole.children.len() == sub.children.len() && whole.node == subv.node && whole.children == subv.children { continue; } // the top node itself: nothing above it
+                let (Some(a), Some(b)) = (lookup_rec_expr(&sub, eg), lookup_rec_expr(&subv, eg)) else { continue };
+                if !eg.eq(&a, &b) { continue; }
+                let before = snapshot(eg);
+                match lookup_rec_expr(&whole, eg) {
+                    None => return Err(format!("C09:lookup.agrees {}: {} equals {} in the e-graph, so {} is represented (it equals the inserted {}), but lookup_rec_expr does not find it", desc, subv, sub, whole, s)),
+                    Some(l) => if !eg.eq(&l, &h.handles[k]) { return Err(format!("C09:lookup.agrees {}: lookup of {} (equal to the inserted {} through the symmetry of {}) gives {:?}, expected {:?}", desc, whole, s, sub, l, h.handles[k])); }
+                }
+                let x = eg.add_expr(whole.clone());
+                if before != snapshot(eg) { return Err(format!("C09:add.known-creates-nothing {}: inserting {} (equal to the inserted {} because {} = {}) changed the e-graph: {:?} -> {:?}", desc, whole, s, sub, subv, (before.0, before.1, before.2), { let n = snapshot(eg); (n.0, n.1, n.2) })); }
+                if !eg.eq(&x, &h.handles[k]) { return Err(format!("C09:add.known-creates-nothing {}: inserting {} gives {:?}, the first insertion of the equal term {} gave {:?}", desc, whole, x, s, h.handles[k])); }
+            }
         }
     }
     Ok(())
@@ -189,6 +226,11 @@ fn hand_written() -> Vec<(Vec<&'static str>, Vec<(usize, usize)>)> {
         (vec!["(mul (var $1) zero)", "zero", "(mul (var $2) (var $3))", "(mul (var $3) (var $2))"], vec![(0, 1), (2, 3)]),
         // a symmetric class loses a slot outside the orbit of its symmetry: the symmetry must survive
         (vec!["(f3 (var $1) (var $2) (var $3))", "(f3 (var $2) (var $1) (var $3))", "(f3 (var $1) (var $2) zero)"], vec![(0, 1), (0, 2)]),
+        // a child whose group has elements that are neither the identity nor one of the stored generators (S3, Klein
+        // four-group), below a parent with an asymmetric sibling over the same slots
+        (vec!["(f3 (var $1) (var $2) (var $3))", "(f3 (var $2) (var $1) (var $3))", "(f3 (var $2) (var $3) (var $1))", "(add (f3 (var $1) (var $2) (var $3)) (sub (var $1) (sub (var $2) (var $3))))"], vec![(0, 1), (0, 2)]),
+        (vec!["(f4 (var $1) (var $2) (var $3) (var $4))", "(f4 (var $2) (var $1) (var $3) (var $4))", "(f4 (var $1) (var $2) (var $4) (var $3))", "(mul (f4 (var $1) (var $2) (var $3) (var $4)) (sub (sub (var $1) (var $2)) (sub (var $3) (var $4))))"], vec![(0, 1), (0, 2)]),
+        (vec!["(f3 (var $1) (var $2) (var $3))", "(f3 (var $3) (var $1) (var $2))", "(f3 (var $1) (var $3) (var $2))", "(app (f3 (var $1) (var $2) (var $3)) (app (var $1) (app (var $2) (var $3))))", "(lam $1 (sub (f3 (var $1) (var $2) (var $3)) (sub (var $2) (var $3))))"], vec![(0, 1), (0, 2)]),
         // a symmetric class that is then merged INTO a bigger class (it is the deprecated side of move_to)
         (vec!["(mul (var $1) (var $2))", "(mul (var $2) (var $1))", "(g (g (add (var $1) (var $2))))", "(add (var $1) (var $2))"], vec![(0, 1), (0, 3)]),
         (vec!["(f3 (var $1) (var $2) (var $3))", "(f3 (var $2) (var $3) (var $1))", "(g (app (var $1) (app (var $2) (var $3))))", "(sub (app (var $1) (app (var $2) (var $3))) one)", "(app (var $1) (app (var $2) (var $3)))"], vec![(0, 1), (0, 4)]),
@@ -237,7 +279,7 @@ pub fn run(only: &[String]) -> Vec<String> {
         }
         // union histories: 6 terms, some of them slot-permuted copies of earlier ones or pairs of such copies under one
         // node, 8 unions between the top-level handles
-        let useeds: u64 = if deep { 2000 } else { 200 };
+        let useeds: u64 = if deep { 2000 } else { 100 };
         for seed in 1..=useeds {
             let mut r = Rng(seed.wrapping_mul(0xD1B54A32D192ED03).wrapping_add(7));
             let mut adds: Vec<String> = Vec::new();
